@@ -66,7 +66,9 @@ QOps(n) == ROps(n) \cup {SvF(n, "GET", "/posts/author", "/posts/author", <<>>, [
 \* the process has ever built a method set before), followed by the reads that show the sets
 FOps(n) == {Hd(n, "/s/f", <<"DELETE", "PATCH">>, ""), Hd(n, "/posts/abc", <<"PUT">>, ""), Hd(n, "/u/{id}/y", <<"PUT", "CONNECT">>, ""), Hd(n, "/s/f", G, ""),
             Rm(n, "/s/f", <<"PATCH">>), Rm(n, "/u/{id}/y", <<"PUT">>), Rm(n, "/s/a", <<>>), Cl(n, "/s/f")}
-Suffix(role) == IF role.k = "fresh" THEN <<Sv(role.n, "OPTIONS", "*", "", <<>>), Rt(role.n), Sv(role.n, "OPTIONS", "/s/f", "/s/f", <<>>), Sv(role.n, "PATCH", "/u/7q/y", "/u/{id}/y", [id |-> "7q"])>>
+\* ... and by a BRAND-NEW router (no route ever registered on it) asked for its root entry: what it answers must not depend on what r1 did
+Suffix(role) == IF role.k = "fresh" THEN <<Sv(role.n, "OPTIONS", "*", "", <<>>), Rt(role.n), Sv(role.n, "OPTIONS", "/s/f", "/s/f", <<>>), Sv(role.n, "PATCH", "/u/7q/y", "/u/{id}/y", [id |-> "7q"]),
+                                            New("r9"), Sv("r9", "OPTIONS", "*", "", <<>>), Rt("r9")>>
                 ELSE <<>>
 OpsFor(role) == CASE role.k = "w" -> WOps(role.n)
                   [] role.k = "fresh" -> FOps(role.n)
@@ -83,7 +85,9 @@ Preflight(n) == SvH(n, "OPTIONS", "/posts/author", "/posts/author", <<>>, [Origi
                                                                            @@ ("Access-Control-Request-Headers" :> "content-type, x-a"))
 Prefix(role) == IF role.k = "own" THEN Setup(role.n) ELSE IF role.k = "hosts" THEN <<New(role.n)>>
                 ELSE IF Mode = "c07quiet" THEN <<Preflight(role.n)>> ELSE <<>>
-SetupOps == CASE Mode \in {"c06", "c07quiet", "c07fresh"} -> Setup("r1")
+SetupOps == CASE Mode \in {"c06", "c07quiet"} -> Setup("r1")
+              \* the very first thing the process does: a new router, never given a route, is asked for its root entry
+              [] Mode = "c07fresh" -> <<New("r0"), Sv("r0", "OPTIONS", "*", "", <<>>), Rt("r0")>> \o Setup("r1")
               [] Mode = "c07group" -> <<New("g1")>> \o Setup("r1")
               [] Mode = "c07seq" -> <<New("r1"), New("r3")>>
               [] OTHER -> <<>>
